@@ -24,6 +24,11 @@ fn pattern(kind: &str) -> String {
         "default" => format!("{{d({})}}", FMT),
         "local" => format!("{{date({})(local)}}", FMT),
         "pid" => "{P}|{pid}".to_string(),
+        // seconds since the epoch with a fraction: the instant of the encode call itself, to the last digit
+        "ns" => "{d(%s.%9f)(utc)}".to_string(),
+        "us" => "{d(%s.%6f)}".to_string(),
+        "ms" => "{d(%s.%3f)(local)}".to_string(),
+        "msdot" => "{d(%s%.3f)}".to_string(),
         _ => format!("{{d({})(utc)}}", FMT),
     }
 }
@@ -70,6 +75,7 @@ fn normalise(kind: &str, got: &str) -> String {
 /// every encode runs on a thread of its own.
 fn check_case(ci: usize, case: &Value, same_thread: bool) -> Option<Value> {
     let mut encs: HashMap<String, Box<dyn Encode>> = HashMap::new();
+    let mut last_instant: HashMap<String, i128> = HashMap::new();
     let mut in_child: Option<i32> = None; // write end of the pipe to the process that forked us
     let finish = |in_child: Option<i32>, r: Option<Value>| -> Option<Value> {
         if let Some(fd) = in_child {
@@ -140,9 +146,14 @@ fn check_case(ci: usize, case: &Value, same_thread: bool) -> Option<Value> {
             _ => {
                 let k = op["k"].as_str().unwrap();
                 let z = op["z"].as_str().unwrap();
+                let fractional = matches!(k, "ns" | "us" | "ms" | "msdot");
+                if matches!(k, "ms" | "msdot") {
+                    std::thread::sleep(std::time::Duration::from_millis(2)); // so that two encodes differ in the milliseconds
+                }
                 let before = Utc::now();
                 let enc = encs[k].as_ref();
-                let rendered = if same_thread {
+                // (the fractional kinds always render on this thread: successive encodes of one thread are the point)
+                let rendered = if same_thread || fractional {
                     catch(|| render(enc))
                 } else {
                     std::thread::scope(|s| s.spawn(|| catch(|| render(enc))).join().unwrap())
@@ -153,6 +164,27 @@ fn check_case(ci: usize, case: &Value, same_thread: bool) -> Option<Value> {
                     Err(p) => return finish(in_child, Some(json!({"step": i, "what": "encode panicked", "error": p}))),
                 };
                 let after = Utc::now();
+                if fractional {
+                    // parse seconds.fraction back; it must lie within the clock readings around the call (cut to the
+                    // precision of the format) and after the previous encode of this kind
+                    let digits = if k == "ns" { 9 } else if k == "us" { 6 } else { 3 };
+                    let parsed: Option<i128> = got.split_once('.').and_then(|(a, b)| {
+                        if b.len() != digits { return None; }
+                        Some(a.parse::<i128>().ok()? * 1_000_000_000 + b.parse::<i128>().ok()? * 10i128.pow(9 - digits as u32))
+                    });
+                    let unit = 10i128.pow(9 - digits as u32);
+                    let lo = (before.timestamp_nanos_opt().unwrap() as i128 / unit) * unit;
+                    let hi = after.timestamp_nanos_opt().unwrap() as i128;
+                    let prev = last_instant.get(k).copied();
+                    match parsed {
+                        Some(v) if v >= lo && v <= hi && prev.map(|p| v >= p).unwrap_or(true) => {
+                            last_instant.insert(k.to_string(), v);
+                            continue;
+                        }
+                        _ => return finish(in_child, Some(json!({"step": i, "what": "date is not the instant of the encode call", "kind": k, "pattern": pattern(k),
+                                                             "actual": got, "window_ns": [lo.to_string(), hi.to_string()], "previous_of_this_kind": prev.map(|p| p.to_string())}))),
+                    }
+                }
                 if k == "pid" {
                     let me = std::process::id();
                     if got != format!("{}|{}", me, me) {
